@@ -154,7 +154,9 @@ class Xunitary(Compiler):
 
         # merge S2gates
         if len(regrefs) > half_n_modes:
-            for mode, indices in list_duplicates(regrefs):
+            duplicates = list(list_duplicates(regrefs))
+            while duplicates:
+                mode, indices = duplicates[0]
                 r = 0
                 phi = 0
 
@@ -170,6 +172,11 @@ class Xunitary(Compiler):
 
                 i, j = mode
                 B.insert(indices[0], Command(ops.S2gate(r, phi), [registers[i], registers[j]]))
+
+                # removing and inserting commands has shifted the positions of the remaining
+                # duplicates: recompute them from the current list
+                regrefs = [(cmd.reg[0].ind, cmd.reg[1].ind) for cmd in B]
+                duplicates = list(list_duplicates(regrefs))
 
         meas_seq = [C[-1]]
         seq = GaussianUnitary().compile(C[:-1], registers)
